@@ -160,6 +160,13 @@ def run(ctx):
         ctx.floor("D3-SPLIT", NEXT, "Some(Ok) paths", len(oks), 1)
         for i, p in enumerate(oks):
             stores = {}
+            # the yielded Package's fields: a struct literal (directly or from an inlined constructor helper), overridden by later field assignments
+            yv = strip_refs(unwrap_ok(unwrap_some(p.end[1])))
+            ya = agg_variant(yv)
+            if ya and ya[0].endswith("Package") and yv[5]:
+                for fname, fval in zip(yv[5], ya[2]):
+                    if fname in ("pkgbase", "pkgversion", "pkgname", "path"):
+                        stores[fname] = fval
             for e in p.events:
                 if e.kind == "store" and isinstance(e.place, tuple) and e.place[0] == "field" and e.place[3] in ("pkgbase", "pkgversion", "pkgname", "path"):
                     stores[e.place[3]] = e.value
